@@ -5,7 +5,8 @@ from .. import AnalysisError
 from ..report import Ob
 from ..cfg import calls_at, call_attr, is_self_attr
 from ..state import Analysis, State, TOP, sched_calls, sched_action_name, sched_event_type, bind_call, SCHED_PARAMS
-from ..norm import Normalizer, cmp_norm, FrameEnv, single_defs
+from ..norm import Normalizer, cmp_norm, cmp_polarity, FrameEnv, single_defs, subst, ctext
+from ..lists import ExistsLoops, eq_fact
 from .. import inventory as inv
 from .. import devices as dv
 
@@ -45,7 +46,10 @@ def check(ctx):
     dup = [n for n in g.nodes.values() if n.kind == 'cond' and isinstance(n.ast, ast.Call) and call_attr(n.ast) == '_is_work_order_requested']
     o.count()
     params = [a.arg for a in fn.args.args][1:]
-    if len(dup) != 1 or [ast.unparse(a) for a in dup[0].ast.args] != params[:2]:
+    def _dup_args(c_):
+        b_ = dv.bind_method_call(P, M, c_) or {}
+        return [ast.unparse(v) for v in b_.values()]
+    if len(dup) != 1 or _dup_args(dup[0].ast) != params[:2]:
         o.fail(P, 'Maintainer.create_work_order', 'if self._is_work_order_requested(target, tag): return False', 'the duplicate test on (target, tag) is missing or tests something else',
                file=M.mod.path, line=fn.lineno)
     else:
@@ -110,36 +114,34 @@ def check(ctx):
     obs.append(o)
     fn = P.method(M, '_is_work_order_requested')[1]
     tp, gp = [a.arg for a in fn.args.args][1:3]
-    seen_lists = set()
-    for lp in [n for n in ast.walk(fn) if isinstance(n, ast.For)]:
+    gd = ctx.graph(M, '_is_work_order_requested', boolean=True)
+    EL = ExistsLoops({'self._request_queue': '#dupQ', 'self._active_requests': '#dupA'}, [('target', eq_fact('target', tp)), ('tag', eq_fact('tag', gp))])
+    and_ = Analysis(P, gd, EL.fields())
+    EL.install(and_)
+    import itertools
+    for q, a_ in itertools.product('TF', 'TF'):
+        res = ctx.explore(and_, [State(EL.entry(**{'#dupQ': q, '#dupA': a_}))])
+        yes, no = res.at(gd.exitT), res.at(gd.exitF)
         o.count()
-        lst = ast.unparse(lp.iter)
-        v = lp.target.id if isinstance(lp.target, ast.Name) else None
-        okl = False
-        if len(lp.body) == 1 and isinstance(lp.body[0], ast.If) and not lp.body[0].orelse:
-            t = lp.body[0].test
-            rets = lp.body[0].body
-            if isinstance(t, ast.BoolOp) and isinstance(t.op, ast.And) and len(t.values) == 2 and len(rets) == 1 and isinstance(rets[0], ast.Return) \
-                    and isinstance(rets[0].value, ast.Constant) and rets[0].value.value is True:
-                cs = set()
-                for c_ in t.values:
-                    if isinstance(c_, ast.Compare) and len(c_.ops) == 1 and isinstance(c_.ops[0], ast.Eq):
-                        cs.add(frozenset([ast.unparse(c_.left), ast.unparse(c_.comparators[0])]))
-                okl = cs == {frozenset([f'{v}.target', tp]), frozenset([f'{v}.tag', gp])}
-        if okl and lst in ('self._request_queue', 'self._active_requests'):
-            seen_lists.add(lst)
-            o.witness(lst)
+        want = q == 'T' or a_ == 'T'
+        case = f'an order with the same target and tag is {"" if q == "T" else "not "}queued and {"" if a_ == "T" else "not "}in progress'
+        bad = None
+        if not yes and not no:
+            bad = 'the duplicate test has no normal exit'
+        elif want and no:
+            bad = 'the duplicate test can answer False'
+            ex, st_ = gd.exitF, no[0]
+        elif not want and yes:
+            bad = 'the duplicate test can answer True'
+            ex, st_ = gd.exitT, yes[0]
+        if bad:
+            o.fail(P, 'Maintainer._is_work_order_requested', 'for r in self._request_queue / self._active_requests: if r.target == target and r.tag == tag: return True',
+                   f'{case}: {bad} (an order is a duplicate iff an order with the same target AND the same tag is queued or in progress)', file=M.mod.path, line=fn.lineno,
+                   path=res.path_lines(ex, st_) if not bad.endswith('exit') else None)
         else:
-            o.fail(P, 'Maintainer._is_work_order_requested', lp.body[0].test if lp.body and isinstance(lp.body[0], ast.If) else lp,
-                   'a scan of the duplicate test does not compare target and tag for equality', file=M.mod.path, line=lp.lineno)
-    o.count()
-    if seen_lists != {'self._request_queue', 'self._active_requests'}:
-        o.fail(P, 'Maintainer._is_work_order_requested', 'for r in self._request_queue / self._active_requests', f'the duplicate test must cover queued and active orders; covers {sorted(seen_lists)}',
-               file=M.mod.path, line=fn.lineno)
-    last = [s for s in fn.body if not (isinstance(s, ast.Expr) and isinstance(s.value, ast.Constant))][-1]
-    o.count()
-    if not (isinstance(last, ast.Return) and isinstance(last.value, ast.Constant) and last.value.value is False):
-        o.fail(P, 'Maintainer._is_work_order_requested', 'return False', 'the duplicate test does not answer False when nothing matches', file=M.mod.path, line=fn.lineno)
+            o.witness((q, a_))
+    o.sample({'cases': 'duplicate queued x duplicate in progress (4 combinations)', 'graph_nodes': len(gd.nodes),
+              'model': 'search loops explored with abstract elements: match (target and tag equal) / other'})
 
     # ---- C12.3 the scan ----------------------------------------------------------------------------------
     o = Ob('C12.3', 'K14+K6', 'try_working_requests: scan from 0; start only if needed - capacity + utilization <= 0 and no active order on the same target; '
@@ -154,83 +156,91 @@ def check(ctx):
                node=node, file=M.mod.path, line=fn.lineno)
     if head is not None:
         iv = head.ast.left.id if isinstance(head.ast.left, ast.Name) else head.ast.comparators[0].id
-        defs = single_defs(fn)
-        reqvars = [k for k, v in defs.items() if ast.unparse(v) == f'self._request_queue[{iv}]']
-        rq = reqvars[0] if reqvars else f'self._request_queue[{iv}]'
-        othervars = {}
-        for k, v in defs.items():
-            if isinstance(v, ast.ListComp) and len(v.generators) == 1 and ast.unparse(v.generators[0].iter) == 'self._active_requests' and len(v.generators[0].ifs) == 1:
-                x = v.generators[0].target.id
-                t = v.generators[0].ifs[0]
-                if isinstance(t, ast.Compare) and isinstance(t.ops[0], ast.Eq) and {ast.unparse(t.left), ast.unparse(t.comparators[0])} == {f'{x}.target', f'{rq}.target'} \
-                        and ast.unparse(v.elt) == x:
-                    othervars[k] = True
+        rqc = f'self._request_queue[{iv}]'
+        ELs = ExistsLoops({'self._active_requests': '#busy'}, [('same-target', eq_fact('target', f'{rqc}.target'))])
 
-        env = {k: v for k, v in defs.items() if k not in reqvars and k not in othervars}
+        def fits_refine(an_, test, truth, st, frame):
+            pol = cmp_polarity(N, test, FrameEnv(frame), {f'{rqc}.needed_capacity': 1, 'self._capacity': -1, 'self._utilization': 1}, '<=')
+            if pol is None:
+                return NotImplemented
+            want = 'T' if (truth == (pol == 1)) else 'F'
+            cur = st.fields.get('#fits')
+            if cur in ('T', 'F'):
+                return st if cur == want else None
+            return st.with_field('#fits', want)
 
-        def classify(node, lbl):
-            if node.kind == 'cond':
-                r = cmp_norm(N, node.ast, env, True)
-                if r and r[1] == '<=' and r[0].is_({f'{rq}.needed_capacity': 1, 'self._capacity': -1, 'self._utilization': 1}):
-                    return ('fits', lbl)
-                s = ast.unparse(node.ast).replace(' ', '')
-                for ov in othervars:
-                    if s in (f'len({ov})==0', f'not{ov}', f'len({ov})<1'):
-                        return ('free', lbl)
-                    if s in (f'len({ov})>0', f'{ov}', f'len({ov})!=0'):
-                        return ('free', 'F' if lbl == 'T' else 'T')
-                return ('othercond', lbl)
-            if node.kind == 'stmt':
-                s = node.src().replace(' ', '')
-                if s == f'self._request_queue.pop({iv})':
-                    return ('rm',)
-                if s == f'self._active_requests.append({rq})':
-                    return ('activate',)
-                if isinstance(node.ast, ast.AugAssign) and is_self_attr(node.ast.target, '_utilization'):
-                    good = isinstance(node.ast.op, ast.Add) and ast.unparse(node.ast.value) == f'{rq}.needed_capacity'
-                    return ('util', good)
-                if isinstance(node.ast, ast.Assign) and any(is_self_attr(t, '_utilization') for t in node.ast.targets):
-                    return ('util', N.norm(node.ast.value).is_({'self._utilization': 1, f'{rq}.needed_capacity': 1}))
-                for cl in sched_calls(g, node):
-                    b = bind_call(cl, SCHED_PARAMS)
-                    act = b.get('action')
-                    good = sched_event_type(cl) == 'START_WORK' and 'time' in b and N.norm(b['time']).is_({'NOW': 1}) and ast.unparse(b.get('asset_id', ast.Constant(0))) == 'self.id' \
-                        and isinstance(act, ast.Call) and call_attr(act) == 'partial' and ast.unparse(act.args[0]) == 'self._start_work_order' \
-                        and ([ast.unparse(k.value) for k in act.keywords if k.arg == 'request'] == [rq] or [ast.unparse(a) for a in act.args[1:]] == [rq])
-                    return ('start', good)
-                if isinstance(node.ast, ast.AugAssign) and isinstance(node.ast.target, ast.Name) and node.ast.target.id == iv:
-                    return ('inc',)
-            return None
-        paths = dv.loop_body_paths(g, head)
-        for path in paths:
-            o.count()
-            ev = [e for e in (classify(n, l) for n, l in path) if e]
-            kinds = [e[0] for e in ev]
-            started = 'rm' in kinds or 'start' in kinds or 'activate' in kinds or 'util' in kinds
-            bad = None
-            if any(k == 'othercond' for k in kinds):
-                bad = 'the start decision depends on an unrecognised condition'
-            elif started:
-                o.witness('start-path')
-                if ('fits', 'T') not in ev or ('free', 'T') not in ev:
-                    bad = 'an order is started without both tests having succeeded: enough free capacity (needed - capacity + utilization <= 0) and no active order on the same target'
-                elif sorted(k for k in kinds if k in ('rm', 'activate', 'util', 'start')) != ['activate', 'rm', 'start', 'util'] or 'inc' in kinds:
-                    bad = f'starting an order must: remove it from the queue, append it to the active list, add its capacity to the utilization and schedule START_WORK, once each (found {kinds})'
-                elif not all(e[1] for e in ev if e[0] in ('util', 'start')):
-                    bad = 'the utilization must grow by the needed capacity of the started order and START_WORK must be scheduled at the current instant, under the maintainer id, for that same order'
-            else:
-                o.witness('skip-path')
-                if kinds.count('inc') != 1:
-                    bad = 'an order that is not started must be skipped by advancing the index once'
-                if ('fits', 'T') in ev and ('free', 'T') in ev:
-                    bad = 'an order that fits and whose target is free is not started'
-            if bad:
-                last = [n for n, _ in path if n.kind in ('stmt', 'cond')]
-                o.fail(P, 'Maintainer.try_working_requests', last[-1].ast if last else 'scan body', bad, node=last[-1] if last else None, file=M.mod.path,
-                       path=[f'{n.line}: {n.kind} {n.src()[:80]} [{l or ""}]' for n, l in path if n.kind in ('stmt', 'cond')])
-        o.require(paths, 'the scan loop of try_working_requests has no body path')
-        o.sample({'loop': head.src(), 'paths': len(paths), 'fit_test_normal_form': f'{rq}.needed_capacity - self._capacity + self._utilization <= 0',
-                  'target_free_test': sorted(othervars)})
+        def it_hook(an_, n, before, after):
+            st = after
+            env = FrameEnv(n.frame)
+
+            def bump(k):
+                nonlocal st
+                st = st.with_flag(k + '-twice' if k in st.flags else k)
+            a = n.ast
+            for cl in calls_at(g, n):
+                nm = call_attr(cl)
+                recv = ctext(cl.func.value, env) if isinstance(cl.func, ast.Attribute) else ''
+                if recv == 'self._request_queue' and nm in ('pop', 'remove'):
+                    arg = ctext(cl.args[0], env, keep=(iv,)) if cl.args else ''
+                    bump('rm' if (nm == 'pop' and arg == iv) or (nm == 'remove' and arg == rqc) else 'rm-wrong')
+                elif recv == 'self._request_queue' and nm not in ('copy', 'index', 'count'):
+                    bump('queue-' + nm)
+                if recv == 'self._active_requests' and nm in ('append', 'insert', 'remove', 'pop', 'extend'):
+                    bump('activate' if nm == 'append' and cl.args and ctext(cl.args[0], env, keep=(iv,)) == rqc else 'activate-wrong')
+                if nm == 'schedule_event':
+                    b_ = bind_call(cl, SCHED_PARAMS)
+                    act = b_.get('action')
+                    if isinstance(act, ast.Name):
+                        r_ = env.resolve(act.id)
+                        act = r_[0] if r_ else act
+                    tgt = None
+                    if isinstance(act, ast.Call) and call_attr(act) == 'partial' and act.args and ctext(act.args[0], env) == 'self._start_work_order':
+                        tgt = [ctext(k.value, env, keep=(iv,)) for k in act.keywords if k.arg == 'request'] or [ctext(x, env, keep=(iv,)) for x in act.args[1:]]
+                    good = sched_event_type(cl) == 'START_WORK' and 'time' in b_ and N.norm(b_['time'], env).is_({'NOW': 1}) and \
+                        ctext(b_.get('asset_id', ast.Constant(0)), env) == 'self.id' and tgt == [rqc]
+                    bump('start' if good else 'start-wrong')
+            if n.kind == 'stmt' and isinstance(a, ast.Delete) and any(ctext(t, env, keep=(iv,)) == f'self._request_queue[{iv}]' for t in a.targets):
+                bump('rm')
+            if n.kind == 'stmt' and isinstance(a, (ast.Assign, ast.AugAssign)):
+                tg = a.targets if isinstance(a, ast.Assign) else [a.target]
+                if any(is_self_attr(t, '_utilization') for t in tg):
+                    newv = N.norm(ast.BinOp(left=a.target, op=a.op, right=a.value) if isinstance(a, ast.AugAssign) else a.value, env)
+                    bump('util' if newv.is_({'self._utilization': 1, f'{rqc}.needed_capacity': 1}) else 'util-wrong')
+                if any(isinstance(t, ast.Name) and t.id == iv for t in tg):
+                    newv = N.norm(ast.BinOp(left=a.target, op=a.op, right=a.value) if isinstance(a, ast.AugAssign) else a.value, {})
+                    bump('inc' if newv.is_({iv: 1}, 1) else 'inc-wrong')
+            return st
+        ani = Analysis(P, g, ELs.fields() + ['#fits'])
+        ELs.install(ani)
+        ani.refine_hooks.insert(0, fits_refine)
+        ani.node_hooks.append(it_hook)
+        starts = [m for l, m in g.succ[head.id] if l == 'T']
+        stops = {head.id} | {p for _, p in g.pred[head.id] if g.nodes[p].kind == 'join' and g.nodes[p].note == 'while-head'}
+        import itertools
+        n_out = 0
+        for fits, busy in itertools.product('TF', 'TF'):
+            f0 = ELs.entry(**{'#busy': busy})
+            f0['#fits'] = fits
+            res = ani.run([State(f0)], start=starts, stop=stops)
+            ctx.units['abstract_states'] += res.n_states()
+            outs = [(sid, st) for sid in stops for st in res.at(sid) if st.flags or True]
+            outs = [(sid, st) for sid, st in outs if res.seen[sid][st.key()][1] is not None]
+            o.require(outs, 'an iteration of the scan never returns to the loop test')
+            want = {'rm', 'activate', 'util', 'start'} if (fits == 'T' and busy == 'F') else {'inc'}
+            case = f'the order at the current index {"fits" if fits == "T" else "does not fit"} the remaining capacity and its target is {"already being worked on" if busy == "T" else "free"}'
+            for sid, st in outs:
+                o.count()
+                n_out += 1
+                fl = {f for f in st.flags if not f.startswith(('seen-match', 'loop'))}
+                if fl == want:
+                    o.witness((fits, busy))
+                else:
+                    o.fail(P, 'Maintainer.try_working_requests', 'if self._utilization <= self._capacity - req.needed_capacity and len(other_work_orders) == 0: start ... else: i += 1',
+                           f'{case}: this iteration of the scan does {sorted(fl) or "nothing"}; expected {sorted(want)} '
+                           '(start = removed from the queue, appended to the active list, utilization += needed capacity, START_WORK scheduled now for that order; otherwise index + 1)',
+                           file=M.mod.path, line=fn.lineno, path=res.path_lines(sid, st))
+        o.sample({'loop': head.src(), 'iteration_outcomes': n_out, 'fit_test_normal_form': f'{rqc}.needed_capacity - self._capacity + self._utilization <= 0',
+                  'target_free_test': 'no element of self._active_requests with the same target (exists-loop model)'})
 
     # ---- C12.4 start -----------------------------------------------------------------------------------------
     o = Ob('C12.4', 'K2+K8', '_start_work_order: duration read from the target; start_work_order recorded; cost charged once; start_work once; FINISH_WORK at now + duration for the same order')
@@ -253,7 +263,7 @@ def check(ctx):
             if s.cls is not None and s.cls.name in ('Buffer',):
                 continue
             o.count()
-            if s.cls is M and s.func.name in owners:
+            if s.cls is M and s.func.name in inv.covered(P, owners):
                 o.witness((attr, s.func.name))
             elif s.cls is M or (s.cls is not None and M in s.cls.mro):
                 o.fail(P, s.ctx, s.stmt, f'Maintainer.{attr} is written outside {sorted(owners)}', file=s.mod.path, line=s.line)
@@ -263,7 +273,7 @@ def check(ctx):
             role = s.extra['role']
             o.count()
             if role[0] == 'method' and role[1] not in ('copy', 'index', 'count'):
-                if s.cls is not M or (s.func.name, role[1]) not in allowed:
+                if s.cls is not M or not any(s.func.name in inv.covered(P, {own}) and role[1] == op_ for own, op_ in allowed):
                     o.fail(P, s.ctx, s.stmt, f'.{role[1]}() on Maintainer.{attr} outside its owners (orders must keep request order)', file=s.mod.path, line=s.line)
                 else:
                     o.witness((attr, s.func.name, role[1]))
@@ -298,39 +308,43 @@ def seq_check(ctx, M, meth, o, N, need, forbid):
             nm = call_attr(cl)
             rc = dv.record_call(cl, RH)
             if rc is not None:
-                bump('rec:' + rc[0] if rc[1] and rc[1][0] == rq else 'rec-wrong-order')
+                bump('rec:' + rc[0] if rc[1] and ctext(ast.parse(rc[1][0], mode='eval').body, FrameEnv(n.frame)) == rq else 'rec-wrong-order')
+            env = FrameEnv(n.frame)
             if nm in ('start_work', 'end_work') and isinstance(cl.func, ast.Attribute):
-                good = ast.unparse(cl.func.value) == f'{rq}.target' and [ast.unparse(x) for x in cl.args] == [f'{rq}.tag']
+                good = ctext(cl.func.value, env) == f'{rq}.target' and [ctext(x, env) for x in cl.args] == [f'{rq}.tag'] and not cl.keywords
                 bump('hook:' + nm if good else 'hook-wrong-args')
             if nm == 'add_cost' and is_self_attr(cl.func):
-                v = cl.args[1] if len(cl.args) > 1 else None
-                if isinstance(v, ast.Name) and v.id in defs:
-                    v = defs[v.id]
-                good = v is not None and ast.unparse(v) == f'{rq}.target.get_work_order_cost({rq}.tag)'
+                v = cl.args[1] if len(cl.args) > 1 else next((k.value for k in cl.keywords if k.arg == 'cost'), None)
+                good = v is not None and ctext(v, env) == f'{rq}.target.get_work_order_cost({rq}.tag)'
                 bump('cost' if good else 'cost-wrong')
             if nm == 'add_value' and is_self_attr(cl.func):
                 bump('cost-wrong')
-            if nm == 'remove' and is_self_attr(cl.func.value, '_active_requests'):
-                bump('deactivate' if [ast.unparse(x) for x in cl.args] == [rq] else 'deactivate-wrong')
+            if nm == 'remove' and isinstance(cl.func, ast.Attribute) and ctext(cl.func.value, env) == 'self._active_requests':
+                bump('deactivate' if [ctext(x, env) for x in cl.args] == [rq] else 'deactivate-wrong')
             if nm == 'try_working_requests':
                 done = any(f.startswith('deactivate#') for f in st.flags) and any(f.startswith('util-#') for f in st.flags)
                 bump('rescan' if done else 'rescan-too-early')
             if nm == 'schedule_event':
                 b = bind_call(cl, SCHED_PARAMS)
                 act = b.get('action')
+                if isinstance(act, ast.Name):
+                    r_ = env.resolve(act.id)
+                    act = r_[0] if r_ else act
                 t = b.get('time')
                 dur = None
                 if t is not None:
-                    lin = N.norm(t, defs)
+                    lin = N.norm(subst(t, env), {})
                     dur = lin.is_({'NOW': 1, f'{rq}.target.get_work_order_duration({rq}.tag)': 1})
-                good = sched_event_type(cl) == 'FINISH_WORK' and dur and ast.unparse(b.get('asset_id', ast.Constant(0))) == 'self.id' \
-                    and isinstance(act, ast.Call) and call_attr(act) == 'partial' and ast.unparse(act.args[0]) == 'self._finish_work_order' \
-                    and ([ast.unparse(k.value) for k in act.keywords if k.arg == 'request'] == [rq] or [ast.unparse(x) for x in act.args[1:]] == [rq])
+                tgt = None
+                if isinstance(act, ast.Call) and call_attr(act) == 'partial' and act.args and ctext(act.args[0], env) == 'self._finish_work_order':
+                    tgt = [ctext(k.value, env) for k in act.keywords if k.arg == 'request'] or [ctext(x, env) for x in act.args[1:]]
+                good = sched_event_type(cl) == 'FINISH_WORK' and dur and ctext(b.get('asset_id', ast.Constant(0)), env) == 'self.id' and tgt == [rq]
                 bump('sched:FINISH_WORK' if good else 'sched-wrong')
-        if n.kind == 'stmt' and isinstance(a, ast.AugAssign) and is_self_attr(a.target, '_utilization'):
-            bump('util-' if isinstance(a.op, ast.Sub) and ast.unparse(a.value) == f'{rq}.needed_capacity' else 'util-wrong')
-        if n.kind == 'stmt' and isinstance(a, ast.Assign) and any(is_self_attr(t, '_utilization') for t in a.targets):
-            bump('util-' if N.norm(a.value).is_({'self._utilization': 1, f'{rq}.needed_capacity': -1}) else 'util-wrong')
+        if n.kind == 'stmt' and isinstance(a, (ast.Assign, ast.AugAssign)):
+            tg = a.targets if isinstance(a, ast.Assign) else [a.target]
+            if any(is_self_attr(t, '_utilization') for t in tg):
+                newv = N.norm(subst(ast.BinOp(left=a.target, op=a.op, right=a.value) if isinstance(a, ast.AugAssign) else a.value, FrameEnv(n.frame)), {})
+                bump('util-' if newv.is_({'self._utilization': 1, f'{rq}.needed_capacity': -1}) else 'util-wrong')
         return st
     an = Analysis(P, g, [])
     an.node_hooks.append(hook)
